@@ -296,5 +296,7 @@ def run(ctx: Context) -> None:
     from . import c12
     ctx.isolate(c12.strategy_extremes, "C11.R5")
     ctx.isolate(c10.r8_filter_visits_every_graph, rule="C11.R7")
+    from . import c16
+    ctx.isolate(c16.r6_no_raw_time_numbers, rule="C11.R8", files=("workload/strategy.py", "workload/tasks.py", "workload/profile.py", "schedulers/ilp_scheduler.py", "schedulers/tetrisched_gurobi_scheduler.py", "schedulers/z3_scheduler.py"), floor=30)
     from . import c17
     ctx.isolate(c17.cache_coherence, "C11.R6", ("ExecutionStrategies", "ExecutionStrategy", "Task"), "worst-case runtimes taken from the strategy set", 3)
